@@ -214,60 +214,6 @@ contains
     call ier_out(ier); if (ier == 0) call kv('np', int(np, 8)); call pf('name', o); call pf('file', o2); call pf('cad', o3); call nl()
   end subroutine
 
-  ! cg_goto_f / cg_gorel_f with 0..4 label/index pairs.  The labels are exact-length heap strings: a zero-length
-  ! CHARACTER actual, an all-blank one and one with trailing blanks are all representable (cg_goto_f TRIMs them).
-  subroutine op_gotov()
-    integer :: B, k, ier, i, ix(4)
-    type(fstr) :: s1, s2, s3, s4
-    B = int(ti()); k = int(ti()); ix = 0
-    if (k >= 1) then
-      call ts(s1); ix(1) = int(ti())
-    end if
-    if (k >= 2) then
-      call ts(s2); ix(2) = int(ti())
-    end if
-    if (k >= 3) then
-      call ts(s3); ix(3) = int(ti())
-    end if
-    if (k >= 4) then
-      call ts(s4); ix(4) = int(ti())
-    end if
-    select case (k)
-    case (1); call cg_goto_f(fn, B, ier, s1%p, ix(1), 'end')
-    case (2); call cg_goto_f(fn, B, ier, s1%p, ix(1), s2%p, ix(2), 'end')
-    case (3); call cg_goto_f(fn, B, ier, s1%p, ix(1), s2%p, ix(2), s3%p, ix(3), 'end')
-    case (4); call cg_goto_f(fn, B, ier, s1%p, ix(1), s2%p, ix(2), s3%p, ix(3), s4%p, ix(4), 'end')
-    case default; call cg_goto_f(fn, B, ier, 'end')
-    end select
-    call ier_out(ier); call nl()
-  end subroutine
-
-  subroutine op_gorelv()
-    integer :: k, ier, i, ix(4)
-    type(fstr) :: s1, s2, s3, s4
-    k = int(ti()); ix = 0
-    if (k >= 1) then
-      call ts(s1); ix(1) = int(ti())
-    end if
-    if (k >= 2) then
-      call ts(s2); ix(2) = int(ti())
-    end if
-    if (k >= 3) then
-      call ts(s3); ix(3) = int(ti())
-    end if
-    if (k >= 4) then
-      call ts(s4); ix(4) = int(ti())
-    end if
-    select case (k)
-    case (1); call cg_gorel_f(fn, ier, s1%p, ix(1), 'end')
-    case (2); call cg_gorel_f(fn, ier, s1%p, ix(1), s2%p, ix(2), 'end')
-    case (3); call cg_gorel_f(fn, ier, s1%p, ix(1), s2%p, ix(2), s3%p, ix(3), 'end')
-    case (4); call cg_gorel_f(fn, ier, s1%p, ix(1), s2%p, ix(2), s3%p, ix(3), s4%p, ix(4), 'end')
-    case default; call cg_gorel_f(fn, ier, 'end')
-    end select
-    call ier_out(ier); call nl()
-  end subroutine
-
   ! where: the position as the LIBRARY reports it (C API cg_where through BIND(C): an observer, not a binding under test)
   subroutine op_where()
     interface
